@@ -2008,6 +2008,26 @@ impl Tags {
       if c.entries.len() > 1 {
         self.add(&format!("{}.members.multi", ctx));
       }
+      {
+        // the same literal key on two members of one alternative
+        let mut keys: Vec<String> = vec![];
+        for e in &c.entries {
+          match e {
+            GEntry::Val { key: Some(GKey::Bare(n)), .. } => keys.push(format!("t:{}", n)),
+            GEntry::Val { key: Some(GKey::Value(l)), .. } => keys.push(match l.value() {
+              GLit::Text(s) => format!("t:{}", s),
+              x => format!("{:?}", x),
+            }),
+            _ => {}
+          }
+        }
+        let n = keys.len();
+        keys.sort();
+        keys.dedup();
+        if keys.len() < n {
+          self.add(&format!("{}.dup-literal-key", ctx));
+        }
+      }
       for e in &c.entries {
         self.e(e, ctx);
       }
